@@ -191,6 +191,9 @@ def make_search(mido, base, depth):
                     out.append(('alt', i))
             for k in range(len(inv_overrides)):
                 out.append(('copybad', i, k))
+                if label.startswith('Message:') and \
+                        inv_overrides[k][0][0] not in ('type', 'nosuch'):
+                    out.append(('copyskipbad', i, k))
             for k in range(len(sets)):
                 out.append(('set', i, k))
             out.append(('del', i))
@@ -266,6 +269,24 @@ def make_search(mido, base, depth):
             elif k == 'copybad':
                 new = obj.copy(**dict(inv_overrides[op[2]]))
                 obs = ('accepted', new)
+            elif k == 'copyskipbad':
+                # with skip_checks nothing is validated: the copy must be
+                # whatever constructing the message afresh with the same
+                # values and skip_checks gives (same vars, or the same
+                # exception class)
+                ov = dict(inv_overrides[op[2]])
+
+                def outcome(fn):
+                    try:
+                        return ('ok', norm_vars(vars(fn())))
+                    except Exception as e:
+                        return ('raised', type(e).__name__)
+                merged = dict(vars(obj))
+                merged.update(ov)
+                t_ = merged.pop('type')
+                a = outcome(lambda: obj.copy(skip_checks=True, **ov))
+                b = outcome(lambda: mido.Message(t_, skip_checks=True, **merged))
+                obs = ('probe', (a, b))
             elif k == 'freeze':
                 new = freeze_message(obj)
                 obs = ('new', new)
@@ -315,6 +336,17 @@ def make_search(mido, base, depth):
         return obs
 
     def check(s, hist, op, obs, violation):
+        if obs[0] == 'probe':
+            a, b = obs[1]
+            if a != b:
+                violation(f'{label.split(":")[0]}/copyskipbad/differs-from-fresh',
+                          f'{label}: copy(skip_checks=True, '
+                          f'{dict(inv_overrides[op[2]])}) -> {str(a)[:200]}; '
+                          f'Message(..., skip_checks=True) with the same '
+                          f'values -> {str(b)[:200]} [history {hist + (op,)}]',
+                          {'kind': 'history', 'base': label,
+                           'ops': [list(o) for o in hist + (op,)]})
+            return
         k = op[0]
         i = op[1]
         case = {'kind': 'history', 'base': label,
